@@ -8,37 +8,43 @@ def num? (s : String) : Option Nat :=
   if s.isEmpty || s.length > 7 then none else s.toNat?
 
 /-- `Ar<d>` / `Ax<d>` / `As<d>`: advance and call reset / stop / start before the interval task
-has run. For the model this is `advance d` followed by the call: with fix F17 (`biased` selects)
-the interval task lets the reset / stop win and ends in the state the model reaches. -/
+has run (`Op.advThen`); `q`: the probe. -/
+def callOf (c : Char) : Option Call :=
+  if c == 's' then some .start else if c == 'r' then some .reset else if c == 'x' then some .stop else none
+
 def parseOp (t : String) : Option (List Op) :=
   if t == "s" then some [.start]
   else if t == "r" then some [.reset]
   else if t == "x" then some [.stop]
+  else if t == "q" then some [.probe]
   else
     match t.toList with
     | 'a' :: r => (num? (String.ofList r)).map fun d => [.advance d]
     | 'w' :: r => (num? (String.ofList r)).map fun d => [.await d]
-    | 'A' :: 'r' :: r => (num? (String.ofList r)).map fun d => [.advance d, .reset]
-    | 'A' :: 'x' :: r => (num? (String.ofList r)).map fun d => [.advance d, .stop]
-    | 'A' :: 's' :: r => (num? (String.ofList r)).map fun d => [.advance d, .start]
+    | 'A' :: 'r' :: r => (num? (String.ofList r)).map fun d => [.advThen d .reset]
+    | 'A' :: 'x' :: r => (num? (String.ofList r)).map fun d => [.advThen d .stop]
+    | 'A' :: 's' :: r => (num? (String.ofList r)).map fun d => [.advThen d .start]
+    | ['B', a, b] => (callOf a).bind fun a => (callOf b).map fun b => [.burst2 a b]
+    | ['B', a, b, c] => (callOf a).bind fun a => (callOf b).bind fun b => (callOf c).map fun c => [.burst3 a b c]
     | _ => none
 
 def parseOps (s : String) : Option (List Op) :=
   if s == "-" then some [] else ((s.splitOn ",").mapM parseOp).map List.flatten
 
-def showObs : Obs → String
-  | .tick v a => s!"t{v}@{a}"
-  | .timeout a => s!"n@{a}"
+def showObs : Option Obs → String
+  | some (.tick v a) => s!"t{v}@{a}"
+  | some (.timeout a) => s!"n@{a}"
+  | some (.probe r p a) => s!"q{if r then 1 else 0}{if p then 1 else 0}{a}"
+  | none => "pre"
 
 def handle (ws : List String) : String :=
   match ws with
   | ["seq", i, ops] =>
     match i.toNat?, parseOps ops with
     | some i, some ops =>
-      if i == 0 || i > 100000 then "bad-op"
+      if i > 100000 then "bad-op"
       else
-        let (obs, cut) := runPrefix true (init (i * 1000)) ops
-        let toks := obs.map showObs ++ (if cut then ["pre"] else [])
+        let toks := (runMarked true (init (i * 1000)) false ops).map showObs
         if toks.isEmpty then "-" else " ".intercalate toks
     | _, _ => "bad-op"
   | _ => "bad-op"
